@@ -528,7 +528,10 @@ class TaskScenario(ScenarioData):
                             elif gaplength:
                                 # gaplength is working time - need to find next working slot after gap
                                 gap_hours = self._parse_duration(gaplength)
-                                gap_slots = int(gap_hours)  # Each slot is 1 hour
+                                # Working hours to slots of the project's resolution (a slot is not
+                                # always one hour)
+                                granularity = self.project.attributes.get("scheduleGranularity", 3600)
+                                gap_slots = int(round(gap_hours * 3600 / granularity))
                                 dep_time_idx = self.project.dateToIdx(dep_time)
                                 # Skip gap_slots of working time
                                 working_slots = 0
